@@ -202,12 +202,15 @@ def run(ctx):
     wn = np.arange(400, 900, 7)
     vn = 1.0 + (np.arange(wn.size) % 5) * 0.25
     for vu0 in [None] + FU:
-        for wdt in (np.float32, np.int32, np.int64, np.uint16):
+        for wdt in (np.float32, np.int32, np.int64, np.uint16, 'values-float16', 'values-float32'):
             for path in [(t,) for t in targets if not (vu0 is None and t in FU)] + [('m', 'nm'), ('um', 'wlam' if vu0 else 'angstrom', 'nm')]:
-                a = r.Spectrum(wn.astype(wdt), vn.copy(), waveunit='nm', valueunit=vu0)
+                if isinstance(wdt, str):
+                    a = r.Spectrum(wn.astype(float), vn.astype(wdt.split('-')[1]), waveunit='nm', valueunit=vu0)      # (values exact in half precision)
+                else:
+                    a = r.Spectrum(wn.astype(wdt), vn.copy(), waveunit='nm', valueunit=vu0)
                 b = r.Spectrum(wn.astype(float), vn.copy(), waveunit='nm', valueunit=vu0)
                 npaths += 1
-                ctx.case(('to-narrow-grid', np.dtype(wdt).name, vu0, path))
+                ctx.case(('to-narrow-grid', str(wdt) if isinstance(wdt, str) else np.dtype(wdt).name, vu0, path))
                 try:
                     a.to(*path)
                     b.to(*path)
@@ -217,7 +220,7 @@ def run(ctx):
                 except Exception as ex:
                     ok, err = False, repr(ex)[:160]
                 if not ok:
-                    ctx.violation({'kind': 'to-depends-on-the-storage-type-of-the-grid', 'wave_dtype': np.dtype(wdt).name, 'density': vu0 is not None},
+                    ctx.violation({'kind': 'to-depends-on-the-storage-type-of-the-grid', 'wave_dtype': str(wdt) if isinstance(wdt, str) else np.dtype(wdt).name, 'density': vu0 is not None},
                                   {'path': path, 'error': err}, case=None)
     # ---- Planck ----------------------------------------------------------------------------------------------------------------------
     for T in (300.0, 2000.0, 5778.0, 12000.0):
